@@ -148,9 +148,12 @@ def div (u v : UnitV K) : Except Err (UnitV K) :=
     | .error e => .error e
     | .ok o => .ok ⟨u.expr.div v.expr, u.scale / v.scale, o, u.dim / v.dim, true⟩
 
-/-- `Unit.__pow__` with an already rationalised exponent; the offset is reset to 0 -/
+/-- `Unit.__pow__` with an already rationalised exponent: a logarithmic unit refuses every
+    exponent but 1, a unit with an offset every exponent but 0 and 1 (fix C08-02); the result has
+    no offset -/
 def pow (u : UnitV K) (p : Rat) : Except Err (UnitV K) :=
   if u.isLogarithmic && p != 1 then .error .InvalidUnitOperation
+  else if u.offset != 0 && p != 0 && p != 1 then .error .InvalidUnitOperation
   else .ok ⟨u.expr.pow p, RPow.rpow u.scale p, 0, u.dim.pow p, true⟩
 
 end
